@@ -596,6 +596,7 @@ def r9_loop_jump(facts):
             return out
         raise build.AnalysisBroken('C03.R9: processEvents not found')
     n = 0
+    jump_sources = set()
     for fn in fns:
         rowbegin = set()
         for b, j, st in fn.cfg.stmts():
@@ -622,6 +623,7 @@ def r9_loop_jump(facts):
                     out.append(Obl('C03.R9', fn.name, 'jump to %s' % sname, st['loc'], 'discharged', why='recorded before playback: its wait is 0, never a negative remainder', nontrivial=False))
                     continue
                 n += 1
+                jump_sources.add(sname)
                 ok = False
                 for s2 in fn.cfg.blocks[b]['stmts'][j + 1:]:
                     ap2 = assign_parts(s2['s'])
@@ -642,8 +644,9 @@ def r9_loop_jump(facts):
                 out.append(Obl('C03.R9', fn.name, 'jump to %s' % sname, st['loc'], 'discharged' if ok else 'finding',
                                why='followed by m_currentPosition.wait = <row begin>.wait: the owed time is kept' if ok else
                                'the jump takes the wait recorded at the loop start back: after a tick longer than the loop body (opn2_tickEvents, large tempo multiplier) every pass resets the wait to the same negative value, Tick returns 0 forever and opn2_play never returns'))
-    if n < 3:
-        raise build.AnalysisBroken('C03.R9: only %d loop jumps found in processEvents (expected the global loop and the two loop-stack jumps)' % n)
+    # the global loop and the loop stack (whose infinite and counted jumps may share one statement)
+    if n < 2 or len(jump_sources) < 2:
+        raise build.AnalysisBroken('C03.R9: only %d loop jumps (%d distinct stored positions) found in processEvents (expected the global loop and the loop-stack jumps)' % (n, len(jump_sources)))
     return out
 
 
